@@ -293,13 +293,8 @@ impl Decode for U8ED {
 }
 
 #[verifier::external_body]
-#[derive(PartialEq, Eq, Hash)]
+#[derive(Clone, Copy, PartialEq, Eq, Hash)]
 pub struct U64ED { _p: () }
-
-impl Clone for U64ED {
-    #[verifier::external_body]
-    fn clone(&self) -> (r: Self) ensures r == *self { unimplemented!() }
-}
 
 impl Encode for U64ED {
     uninterp spec fn enc(&self) -> Seq<u8>;
@@ -314,12 +309,8 @@ impl Decode for U64ED {
     fn decode(bytes: &[u8], offset: usize) -> (r: Result<(Self, usize), VErr>) { unimplemented!() }
 }
 
-#[derive(PartialEq, Eq, Hash)]
+#[derive(Clone, Copy, PartialEq, Eq, Hash)]
 pub struct AddressED { pub address: Address }
-impl Clone for AddressED {
-    #[verifier::external_body]
-    fn clone(&self) -> (r: Self) ensures r == *self { unimplemented!() }
-}
 
 impl Encode for AddressED {
     uninterp spec fn enc(&self) -> Seq<u8>;
@@ -334,12 +325,8 @@ impl Decode for AddressED {
     fn decode(bytes: &[u8], offset: usize) -> (r: Result<(Self, usize), VErr>) { unimplemented!() }
 }
 
-#[derive(PartialEq, Eq, Hash)]
+#[derive(Clone, Copy, PartialEq, Eq, Hash)]
 pub struct B256ED { pub bytes: B256 }
-impl Clone for B256ED {
-    #[verifier::external_body]
-    fn clone(&self) -> (r: Self) ensures r == *self { unimplemented!() }
-}
 
 impl Encode for B256ED {
     uninterp spec fn enc(&self) -> Seq<u8>;
@@ -551,4 +538,18 @@ impl TxED {
     pub fn new_indexed(hash: B256ED, block_hash: B256ED, block_number: U64ED, transaction_index: U64ED) -> (r: TxED)
         ensures r.hash == hash && r.block_hash == block_hash && r.block_number == Some(block_number) && r.transaction_index == Some(transaction_index),
     { unimplemented!() }
+}
+
+// alloy U64 (the nonce bounds of the pending-pool range scan)
+#[verifier::external_body]
+pub struct U64 { _p: () }
+impl U64 {
+    #[verifier::external_body]
+    pub const ZERO: U64 = U64 { _p: () };
+    #[verifier::external_body]
+    pub const MAX: U64 = U64 { _p: () };
+}
+impl From<U64> for U64ED {
+    #[verifier::external_body]
+    fn from(b: U64) -> (r: U64ED) ensures (b == U64::ZERO ==> r == u64ed_of(0)) && (b == U64::MAX ==> r == u64ed_of(u64::MAX)) { unimplemented!() }
 }
